@@ -187,6 +187,15 @@ extern int cs_terms_residual(vnacal_t *vcp, int ci, const cs_scenario *sc,
  * residual relative to the terms (0: nothing tested), *lworst: largest
  * relative deviation of an outside leakage term from the mean of its cells.
  */
+/*
+ * cs_terms_rank16 (oracle/csterms.c): for T16 / U16, whether the selected
+ * standards (bit mask) determine the error terms, decided by the rank of the
+ * documented linear system formed from exact measurements; standards that
+ * leave ports open contribute their documented equations.  1 / 0, -1 when
+ * not applicable.
+ */
+extern int cs_terms_rank16(const cs_scenario *sc, unsigned mask,
+	long double *margin, int *eqs, int *unknowns);
 extern int cs_terms_gradient(vnacal_t *vcp, int ci, const cs_scenario *sc,
 	long double *worst, long double *rnorm, long double *lworst);
 
